@@ -98,7 +98,7 @@ Proof.
       * rewrite Hqe. intros j [].
       * exact Hnd.
       * rewrite Hqe. congruence.
-    + destruct (k_maxwait k =? 0).
+    + destruct (k_maxwait k <=? 0).
       * constructor; cbn [k_held k_ext k_threads k_queue k_cap with_threads]; try assumption.
         -- rewrite cnt_set_k by exact Hi. unfold kget in Ei. rewrite Ei. cbn [is_holding]. lia.
         -- intros j Hj. unfold kget. cbn [k_threads with_threads]. rewrite nth_set_k_other; [apply Hq; exact Hj|].
@@ -149,7 +149,7 @@ Proof. induction tr as [|x tr IH]; intros k H; [exact H|]. cbn [krun fold_left].
 Lemma kstep_cap k x : k_cap (kstep_do k x) = k_cap k.
 Proof.
   destruct x as [i|i|i|dt| |]; cbn [kstep_do]; try reflexivity.
-  - destruct (kget k i); try reflexivity. destruct (k_held k <? k_cap k); [reflexivity|]. destruct (k_maxwait k =? 0); reflexivity.
+  - destruct (kget k i); try reflexivity. destruct (k_held k <? k_cap k); [reflexivity|]. destruct (k_maxwait k <=? 0); reflexivity.
   - destruct (kget k i); try reflexivity. unfold give_back. destruct (k_queue k); reflexivity.
   - destruct (kget k i); reflexivity.
   - destruct (k_held k <? k_cap k); reflexivity.
